@@ -1,6 +1,7 @@
 """C07 — CRAM round trip and container conformance: conformance clauses (DESIGN.md §5 C07)."""
 import re
 
+from .. import a10
 from .. import a7
 from .. import cfg as C
 from .. import rules as R
@@ -217,6 +218,9 @@ def run(ctx):
             ctx.ok("C07.R4c", key, "every flag-true path passes the %s with the previous start" % opk[0], f.loc())
 
     # ---------------------------------------------------------------- R5 bookkeeping
+    ctx.rule("C07.R6", "A10 append-buffer discipline: CRAM header text and name-tokenizer token readers reset their buffers before appending")
+    a10.discipline_rule(ctx, "C07.R6", r"^<?noodles_cram::(io|r#async|codecs)", 3)
+
     ctx.rule("C07.R5", "A2 record counter advanced only in flush() by the number of records just written")
     R.writer_set_rule(ctx, "C07.R5", K + "io::writer::Writer", "record_counter", {
         K + "io::writer::Writer::<W>::flush": "+= records.len()",
